@@ -456,7 +456,7 @@ Definition read_header_raw (bs : list N) : res (list rawentry * list rawty * lis
   do args <- read_nN read_index (fst na) (snd na);
   Ok (fst es, fst args, snd args).
 
-(* every key of the final map stands for a type the parser's numeric limits admit *)
+(* every key of the final map stands for a type the parser's numeric limits allow *)
 Definition keys_wf (E : env) (s : tstate) : Prop :=
   forall t i a, tm_find (fst s) t = Some i -> actual E t = Some a -> wf_ser a.
 
